@@ -125,6 +125,7 @@ type c10Case struct {
 	NodeDir    c10Dir `json:"nodeDir"`
 	Target     int    `json:"target"`     // index into c10Fields, or -1-idx into c10Vars
 	Alias      string `json:"alias"`      // response alias ("" = none)
+	Bystander  bool   `json:"bystander"`  // a second field (`take`) starts on the SAME source line as the target: the node-level comment reaches it (documented: "all nodes on the following line"), a `for:` entry for the target must not
 }
 
 var c10OpDirs = []c10Dir{nil, {"pointer": true}, {"pointer": false}, {"omitempty": true}, {"bind": "verifharness/sup.Text"}}
@@ -164,7 +165,10 @@ func runC10(c *Ctx) {
 										if dc != "" && (len(nd) > 0 || len(od) > 0) {
 											continue // decoys are crossed with the for/alias dimensions only
 										}
-										c10Run(c, c10Case{opt, sr, od, fd, dc, nd, t, al})
+										c10Run(c, c10Case{opt, sr, od, fd, dc, nd, t, al, false})
+										if t >= 0 && nd["alias"] == nil {
+											c10Run(c, c10Case{opt, sr, od, fd, dc, nd, t, al, true})
+										}
 									}
 								}
 							}
@@ -184,6 +188,7 @@ func runC10(c *Ctx) {
 			cs.Alias, cs.ForDir, cs.Decoy = "", nil, ""
 		} else {
 			cs.Target = r.Intn(len(c10Fields))
+			cs.Bystander = r.Chance(1, 2) && cs.NodeDir["alias"] == nil
 		}
 		c10Run(c, cs)
 	}
@@ -252,10 +257,14 @@ func c10Run(c *Ctx, cs c10Case) {
 	}
 	ops.WriteString("query Q {\n")
 	ops.WriteString(cs.NodeDir.text(""))
+	by := ""
+	if cs.Bystander {
+		by = " take"
+	}
 	if cs.Alias != "" {
-		ops.WriteString("  " + cs.Alias + ": " + fld.Name + fld.Sub + "\n")
+		ops.WriteString("  " + cs.Alias + ": " + fld.Name + fld.Sub + by + "\n")
 	} else {
-		ops.WriteString("  " + fld.Name + fld.Sub + "\n")
+		ops.WriteString("  " + fld.Name + fld.Sub + by + "\n")
 	}
 	ops.WriteString("}\n")
 	prog := &Program{Schema: map[string]string{"schema.graphql": c10Schema}, Ops: map[string]string{"ops.graphql": ops.String()},
@@ -265,7 +274,7 @@ func c10Run(c *Ctx, cs c10Case) {
 		prog.Cfg.OptionalGeneric = "verifharness/sup.Option"
 	}
 	out := runGenerate(c.Work, prog, false)
-	key := fmt.Sprintf("%s|%v|%v|%v|%s|%v|%d|%s", cs.Optional, cs.StructRefs, cs.OpDir, cs.ForDir, cs.Decoy, cs.NodeDir, cs.Target, cs.Alias)
+	key := fmt.Sprintf("%s|%v|%v|%v|%s|%v|%d|%s|%v", cs.Optional, cs.StructRefs, cs.OpDir, cs.ForDir, cs.Decoy, cs.NodeDir, cs.Target, cs.Alias, cs.Bystander)
 	if out.Panic != nil || out.TimedOut {
 		c.Res.Count("outcome:panic (C07)")
 		return
@@ -311,6 +320,37 @@ func c10Run(c *Ctx, cs c10Case) {
 		fail("violation", "json-tag", fmt.Sprintf("field for %q has tag %s", respKey, tag), tag, nil)
 	}
 	_ = reflect.DeepEqual
+	// nodes that merely share the target's source line: the sub-field `x` of an object target and the bystander
+	// `take`.  The node-level comment reaches them (it applies to every node on the following line); the `for:`
+	// entry of the target and its decoys do not; the operation-level options do.
+	type side struct{ parent, name, gql, structName string }
+	var sides []side
+	if cs.Bystander {
+		sides = append(sides, side{"Query", "take", "Int", "QResponse"})
+	}
+	if fld.Kind == "object" {
+		base := strings.TrimLeft(goType, "[]*")
+		if strings.HasPrefix(base, "sup.Option[") {
+			base = strings.TrimLeft(strings.TrimSuffix(base[len("sup.Option["):], "]"), "[]*")
+		}
+		if !strings.Contains(base, ".") {
+			sides = append(sides, side{"Obj", "x", "Int", base})
+		}
+	}
+	for _, sd := range sides {
+		sType, _, _, ok := c10ResponseField(out.Files["generated.go"], sd.structName, sd.name)
+		if !ok {
+			c.Res.Count("same-line-node:not-located")
+			continue
+		}
+		sm := c.Model(map[string]any{"op": "conv.fieldType", "optional": cs.Optional, "structRefs": cs.StructRefs, "kind": "scalar", "node": cs.NodeDir, "opDir": cs.OpDir,
+			"forTable": forTable, "parentType": sd.parent, "fieldName": sd.name, "alias": sd.name, "type": tnamed(sd.gql, false)})
+		c.Res.Count("same-line-node:compared")
+		if got, want := c10Shape(sType, bases), sm["type"].(string); got != want {
+			fail("violation", "option-leaks-to-same-line-node", fmt.Sprintf("field %s.%s shares the source line of %q; its Go type %s (shape %s) is not the documented function of its own options (expected %s) for:\n%s",
+				sd.parent, sd.name, respKey, sType, got, want, ops.String()), sType, want)
+		}
+	}
 }
 
 // c10ResponseField finds, in struct `typ`, the field carrying response key `key` (by json tag, or for
